@@ -52,10 +52,23 @@ def register(t, i):
     return t
 
 
+# degenerate values have reserved identifiers (the model treats them like any other value): falsy objects that a
+# truth test, an `or`, a `is not None` filter or `len()` would treat differently from ordinary values
+SPECIAL = {-1: "None", -3: "False", -4: "''", -5: "tensor with zero rows"}
+
+
 def mkval(i, mode):
-    if mode == "int":
-        return int(i)
+    if i == -1:
+        return None
+    if i == -3:
+        return False
+    if i == -4:
+        return ""
     import torch
+    if i == -5:
+        return register(torch.zeros(0, 1), -5)
+    if mode == "int":
+        return int(i)        # 0 is the falsy number
     return register(torch.full((1, 1), float(i)), i)
 
 
@@ -72,6 +85,12 @@ def vid(v):
             if i >= 100000:
                 DESC[i] = f"{str(v.dtype).replace('torch.', '')}{list(v.shape)}[{v.flatten()[0].item()!r}..]" if v.numel() else "empty"
             return i
+        if v is None:
+            return -1
+        if v is False:
+            return -3
+        if isinstance(v, str) and v == "":
+            return -4
         if isinstance(v, bool) or not isinstance(v, int):
             return None
         return int(v)
@@ -81,6 +100,8 @@ def vid(v):
 
 def desc(i):
     """readable form of an identifier in failure messages"""
+    if i in SPECIAL:
+        return f"{i}<{SPECIAL[i]}>"
     return f"{i}<{DESC[i]}>" if i in DESC else str(i)
 
 
@@ -388,7 +409,9 @@ def run_op(st, op, idx, problems):
         if kind == "np":
             import torch
             _, dims, dtype, data = op
-            pts = st.tp.spaces.Points(torch.tensor(data, dtype=getattr(torch, dtype)), st.tp.spaces.Space(dict((a, b) for a, b in dims)))
+            width = sum(b for _, b in dims)
+            pts = st.tp.spaces.Points(torch.tensor(data, dtype=getattr(torch, dtype)).reshape(len(data), width),
+                                      st.tp.spaces.Space(dict((a, b) for a, b in dims)))
             dl = [(a, b) for a, b in dims]
             st.carriers.append(dict(obj=pts, dims=dl, aliased=False,
                                     shadow={n: t.clone() for n, t in stored_slices(pts, dl).items()}))
@@ -479,8 +502,13 @@ def run_op(st, op, idx, problems):
                     derived_note = ""
                 where = where + derived_note
             elif kind == "ca" and len(op) > 4 and op[3] == "map":
-                env_obj = {} if op[4] == "omitted" else build_mapping(st, pairs, op[4], op[5] if len(op) > 5 else 0)
-                env_map = env_obj
+                if op[4] == "omitted":
+                    env_obj = {}
+                elif op[4] == "emptypoints":
+                    env_obj = st.tp.spaces.Points.empty()
+                else:
+                    env_obj = build_mapping(st, pairs, op[4], op[5] if len(op) > 5 else 0)
+                env_map = {} if op[4] == "emptypoints" else env_obj
             else:
                 env_obj, dims = build_env(st, pairs, as_points)
                 env_map = stored_slices(env_obj, dims) if dims is not None else env_obj
@@ -503,7 +531,7 @@ def run_op(st, op, idx, problems):
                 problems.append(f"{where}: the mapping/Points passed in was changed: {env_before} -> {env_snapshot(env_obj)}")
             out = judge_eval(st, w, kind, op, env_map, defaults_before, exc, res, new_hits, problems, where)
             if kind == "ca" and len(op) > 4 and op[3] == "map":
-                out += " M" + showdict(dict(env_obj.items()))      # the user's mapping after the call
+                out += " M" + showdict({} if op[4] == "emptypoints" else dict(env_obj.items()))      # the user's mapping after the call
         elif kind == "cv":
             out = run_vectorized(st, op, hits0, problems, where)
         elif kind == "sd":
@@ -517,10 +545,11 @@ def run_op(st, op, idx, problems):
             out = "u"
             P = declared(st, w) if callable(w.fun) else []
             for k, v in op[2]:
-                if k in P and vid(w.defaults.get(k)) != v:
-                    problems.append(f"{where}: set_default({k}={v}) on a wrapper with parameter {k!r} left defaults[{k!r}]={showval(w.defaults.get(k))}")
+                if k in P and (k not in w.defaults or vid(w.defaults[k]) != v):
+                    problems.append(f"{where}: set_default({k}={desc(v)}) on a wrapper with parameter {k!r} left defaults[{k!r}]="
+                                    f"{showval(w.defaults[k]) if k in w.defaults else '<unbound>'}")
             for k, v in defaults_before.items():
-                if k not in dict(op[2]) and vid(w.defaults.get(k)) != vid(v):
+                if k not in dict(op[2]) and (k not in w.defaults or vid(w.defaults[k]) != vid(v)):
                     problems.append(f"{where}: set_default changed the default of {k!r}, which it was not given")
         elif kind == "rd":
             for i, x in enumerate(st.ws):
@@ -756,7 +785,7 @@ def judge_eval(st, w, kind, op, env, defaults_before, exc, res, new_hits, proble
         bound.update({k: vid(v) for k, v in env.items() if k in P})
         st.pe_info[len(st.ws) - 1] = dict(bound=bound, sigma=sorted(k for k in env if k in P), source=op[1])
         for k in P:
-            if k in env and vid(res.defaults.get(k)) != vid(env[k]):
+            if k in env and (k not in res.defaults or vid(res.defaults[k]) != vid(env[k])):
                 problems.append(f"{where}: partially_evaluate was given {k}={desc(vid(env[k]))} but the returned wrapper keeps "
                                 f"{k}={showval(res.defaults.get(k)) if k in res.defaults else '<unbound>'}: given the remaining names it "
                                 f"cannot yield the value of one full evaluation with {k}={desc(vid(env[k]))}")
@@ -806,8 +835,16 @@ class Gen:
         self.pending = []
         self.car_for = []     # carrier index -> wrapper it was built for
 
-    def v(self):
+    def v(self, special=True):
+        """a fresh identifier; 9 % of the values are degenerate (None, False, '', 0, a tensor with zero rows)"""
+        if special and self.rng.random() < 0.09:
+            return self.rng.choice([-1, -1, -1, -3, -4, -5, 0])
         return next(self.val)
+
+    def plain(self, pairs, keep=()):
+        """replace degenerate values where the route cannot carry them (columns of a fresh Points, batched values,
+        the entry a DomainUserFunction reads the device from)"""
+        return [[k, (v if v > 0 or v in keep else next(self.val))] for k, v in pairs]
 
     def signature(self):
         rng = self.rng
@@ -816,13 +853,19 @@ class Gen:
         m = rng.randint(0, n)
         return names, [self.v() for _ in range(m)]
 
+    def tensor_first(self, st, w, pairs):
+        """DomainUserFunction.__call__ reads `.device` of the first entry: that one has to be a tensor"""
+        if isinstance(w, st.mod.DomainUserFunction) or st.cls.__name__ == "DomainUserFunction":
+            return self.plain(pairs, keep=(-5, 0) if self.mode != "int" else ())
+        return pairs
+
     def with_mapping(self, op):
         """hand the environment over as some other kind of mapping than a plain dict (45 %)"""
         rng = self.rng
         if rng.random() < 0.55:
             return op
         kind = rng.choice(["odict", "proxy", "chain", "defaultdict", "defaultdict", "defaultdict", "missing", "missing", "getter"]
-                          + (["omitted"] if not op[2] else []))
+                          + (["omitted", "emptypoints"] if not op[2] else []))
         fb = rng.choice([0, self.v(), self.v()]) if kind in ("defaultdict", "missing", "getter") else 0
         return op[:3] + ["map", kind, fb]
 
@@ -861,7 +904,9 @@ class Gen:
                 if st.carriers:
                     kinds += ["pt"] * 5 + ["cc"] * 3
         kind = rng.choice(kinds)
-        vec_ok = [i for i, x in enumerate(st.ws) if callable(x.fun) and not isinstance(x, st.mod.DomainUserFunction)]
+        # vectorize=True takes len() of every value: only wrappers whose defaults are sized, ordinary values
+        vec_ok = [i for i, x in enumerate(st.ws) if callable(x.fun) and not isinstance(x, st.mod.DomainUserFunction)
+                  and all((vid(v) or 0) > 0 for v in x.defaults.values())]
         if kind == "cv" and not vec_ok:
             kind = "ca"
         if kind == "wf":
@@ -900,7 +945,7 @@ class Gen:
                 names = rng.sample(self.pool, 1)
             dims = [[p, rng.choice([1, 1, 2])] for p in names]
             width = sum(d for _, d in dims)
-            rows = rng.choice([1, 2, 3])
+            rows = rng.choice([1, 2, 3, 0])
             data = [[1000.0 * rng.choice([1, 1, 0.001]) + rng.random() / 3.0 for _ in range(width)] for _ in range(rows)]
             self.car_for.append(r)
             k = len(st.carriers)
@@ -935,7 +980,7 @@ class Gen:
             names_k = [n for n, _ in car["dims"]]
             whats = ["to32", "to32", "to64", "to64", "read", "slice", "select", "select", "select", "repeat", "fromcoords"]
             if not pts.requires_grad and not car.get("aliased"):
-                whats += ["setitem", "setitem", "reqgrad", "setcols"]
+                whats += ["reqgrad"] + (["setitem", "setitem", "setcols"] if len(pts) >= 1 else [])
             others = [j for j, c in enumerate(st.carriers) if j != k and len(c["obj"]) == len(pts)
                       and c["obj"].as_tensor.dtype == pts.as_tensor.dtype and not set(n for n, _ in c["dims"]) & set(names_k)]
             if others:
@@ -963,8 +1008,8 @@ class Gen:
             if what == "setitem":
                 op.append([7.0 + rng.random() / 7.0 for _ in range(pts.as_tensor.shape[-1])])
             if what == "slice":
-                a = rng.randrange(len(pts))
-                op.append([a, rng.randint(a + 1, len(pts))])
+                a = rng.randrange(len(pts) + 1)
+                op.append([a, rng.randint(min(a + (0 if rng.random() < 0.25 else 1), len(pts)), len(pts))])      # may be empty
                 self.car_for.append(self.car_for[k])
                 call = ["ca", r, [], "carrier", len(st.carriers)]
             if rng.random() < 0.75:
@@ -989,14 +1034,14 @@ class Gen:
         if kind == "ca":
             env = self.env_for(w)
             if self.mode == "points" and env and rng.random() < 0.6:
-                return ["ca", r, env, "points"]
-            return self.with_mapping(["ca", r, env])
+                return ["ca", r, self.plain(env), "points"]
+            return self.with_mapping(["ca", r, self.tensor_first(st, w, env)])
         if kind == "cv":
-            env = self.env_for(w, cover=0.9)
+            env = self.plain(self.env_for(w, cover=0.9))
             B = rng.choice([1, 2, 3, 5])
             lens = [[v, rng.choice([B, B, 1, rng.randint(1, B)])] for _, v in env]
             try:
-                lens += [[vid(v), 1] for v in w.defaults.values() if vid(v) is not None]
+                lens += [[vid(v), 1] for v in w.defaults.values() if vid(v) is not None and vid(v) > 0]
             except Exception:
                 pass
             return ["cv", r, env, lens]
@@ -1027,6 +1072,7 @@ class Gen:
                 rng.shuffle(rho)
                 merged = rho + [kv for kv in sigma if kv[0] not in dict(rho)]
                 rng.shuffle(merged)
+                rho, merged = self.tensor_first(st, w, rho), self.tensor_first(st, w, merged)
                 self.pending = [self.with_mapping(["ca", "new", rho]), self.with_mapping(["ca", r, merged])]
                 return ["pe", r, sigma]
             return ["pe", r, self.env_for(w, cover=0.8)]
@@ -1076,7 +1122,7 @@ def op_line(op):
         return f"dc {op[1]}"
     if k == "ca" and len(op) > 4 and op[3] == "map":
         kind, fb = op[4], (op[5] if len(op) > 5 else 0)
-        if kind == "omitted":
+        if kind in ("omitted", "emptypoints"):
             return f"cm {op[1]} 0 -1 0"
         if kind in ("defaultdict", "missing"):
             return f"cm {op[1]} {d(op[2])} {fb} {1 if kind == 'defaultdict' else 0}"
@@ -1100,6 +1146,22 @@ def model_line(case):
 
 
 CORPUS = [
+    # degenerate values on every binding route: None / False / '' / 0 / zero rows through a call, a declared default,
+    # set_default, a complete and an incomplete partial evaluation (also nested), a user dict
+    dict(cls="UserFunction", mode="int", ops=[
+        ["wf", 0, ["a", "b", "c"], [-1]], ["ca", 0, [["a", -1], ["b", 0]]], ["pe", 0, [["a", -1]]], ["ca", 1, [["b", -3]]],
+        ["ca", 0, [["a", -1], ["b", -3]]], ["pe", 1, [["c", -1]]], ["ca", 2, [["b", 1]]], ["sd", 0, [["b", -1]]], ["ca", 0, [["a", 2]]],
+        ["wf", 1, ["x", "k"], [7]], ["pe", 1, [["k", -1]]], ["ca", 4, [["x", 3]]], ["sd", 3, [["k", -4], ["x", 0]]], ["ca", 3, []],
+        ["nd", [["x", -1]]], ["we", 2, ["x", "y"], 0], ["ca", 5, [["y", -1]]], ["pe", 3, [["x", -1], ["k", -1]]]]),
+    # a Points object with variables but ZERO rows is still a Points object with these names
+    dict(cls="UserFunction", mode="tensor", ops=[
+        ["wf", 0, ["x", "t", "k"], [5]], ["np", [["t", 1], ["x", 2]], "float64", []], ["ca", 0, [], "carrier", 0],
+        ["np", [["k", 1], ["t", 1], ["x", 1]], "float32", []], ["ca", 0, [], "carrier", 1],
+        ["np", [["x", 1], ["t", 1]], "float64", [[0.5, 0.25], [0.75, 0.125]]], ["pt", 2, "slice", [1, 1]], ["ca", 0, [], "carrier", 3],
+        ["ca", 0, [], "map", "emptypoints"], ["ca", 0, [["x", -5], ["t", -5]]], ["wf", 1, ["k"], [6]], ["ca", 1, [], "map", "emptypoints"]]),
+    dict(cls="DomainUserFunction", mode="points", ops=[
+        ["wf", 0, ["x", "t"], [-1]], ["np", [["t", 1], ["x", 2]], "float32", []], ["ca", 0, [], "carrier", 0], ["pe", 0, [["t", -1]]],
+        ["np", [["x", 2]], "float32", []], ["ca", 0, [], "carrier", 1], ["ca", 0, [], "map", "emptypoints"]]),
     # Points arguments with a derivation history: variables selected in another order than they are stored, joins, repeats
     dict(cls="UserFunction", mode="tensor", ops=[
         ["wf", 0, ["t", "x", "k"], [5]], ["np", [["x", 2], ["t", 1], ["k", 1]], "float64", [[0.25, 0.5, 1 / 3, 0.75], [1.25, 1.5, 2 / 3, 1.75]]],
